@@ -150,7 +150,13 @@ def call_sync(ex, fnaddr, args):
 
 def pred_true(ex, th):
     fnaddr, arg, deadline, dest = th.pred
-    v = call_sync(ex, fnaddr, [arg])
+    st = ex.st
+    saved = st.cur
+    st.cur = th.tid          # sx_tid() inside the predicate names the waiting thread
+    try:
+        v = call_sync(ex, fnaddr, [arg])
+    finally:
+        st.cur = saved
     if type(v) is not int:
         raise MachineryError('blocking predicate returned a symbolic value')
     return (v & 0xffffffff) != 0
